@@ -59,11 +59,11 @@ Proof. eexists. split; [reflexivity|]. intros b0 b1 H0 H1. finite_reflect. Qed.
 
 Theorem c17_sensor_clock : exists dec, single_read BMA400_get_sensor_clock ds_SensorTime0_addr 3 dec /\
   forall b0 b1 b2, dec [b0; b1; b2] = b0 + 256 * b1 + 65536 * b2.
-Proof. eexists. split; [reflexivity|]. intros b0 b1 b2. cbv [u32_from_le_bytes arr_get nth N.to_nat Pos.to_nat Pos.iter_op Nat.add]. lia. Qed.
+Proof. eexists. split; [reflexivity|]. intros b0 b1 b2. cbv -[N.add N.mul]. lia. Qed.
 
 Theorem c17_step_count : exists dec, single_read BMA400_get_step_count ds_StepCount0_addr 3 dec /\
   forall b0 b1 b2, dec [b0; b1; b2] = b0 + 256 * b1 + 65536 * b2.
-Proof. eexists. split; [reflexivity|]. intros b0 b1 b2. cbv [u32_from_le_bytes arr_get nth N.to_nat Pos.to_nat Pos.iter_op Nat.add]. lia. Qed.
+Proof. eexists. split; [reflexivity|]. intros b0 b1 b2. cbv -[N.add N.mul]. lia. Qed.
 
 Theorem c17_raw_temp : exists dec, single_read BMA400_get_raw_temp ds_TempData_addr 1 dec /\
   forall b, b < 256 -> dec [b] = (if N.ltb b 128 then Z.of_N b else Z.of_N b - 256)%Z.
